@@ -1,6 +1,6 @@
 """C30 — test executions are isolated and restore process state.
 
-Leg 1 (E1, explicit-state): every sequence of <= k test cases from a 15-call
+Leg 1 (E1, explicit-state): every sequence of <= k test cases from a 17-call
 alphabet (print, raise, SystemExit, close/replace stdout, os.close(1), disable
 logging / remove handlers, reseed / draw / create random generators, mutate a
 module global or class attribute, pure call) is run through ONE real
@@ -74,6 +74,21 @@ def disables_logging(x):
     return 1
 
 
+def disables_and_logs(x):
+    logging.disable(logging.CRITICAL)
+    logging.getLogger("c30_sut").warning("while disabled %s", x)
+    logging.getLogger("pynguin.c30probe").error("while disabled")
+    return 1
+
+
+def logs(x):
+    log = logging.getLogger("c30_sut")
+    if not log.isEnabledFor(logging.WARNING):
+        raise RuntimeError("warning level filtered out")
+    log.warning("hello %s", x)
+    return 1
+
+
 def removes_handlers(x):
     root = logging.getLogger()
     for h in list(root.handlers):
@@ -112,7 +127,7 @@ def pure(x):
 '''
 
 CALLS = ["prints(1)", "raises(1)", "exits(1)", "closes_stdout(1)", "closes_fd1(1)",
-         "replaces_stdout(1)", "disables_logging(1)", "removes_handlers(1)", "reseeds(1)",
+         "replaces_stdout(1)", "disables_logging(1)", "disables_and_logs(1)", "logs(1)", "removes_handlers(1)", "reseeds(1)",
          "draws(1)", "new_rng(1)", "mutates_global(1)", "mutates_class(1)", "pure(2)", "pure(0)"]
 # calls whose own result depends on state they (or process globals) carry across tests
 HIDDEN_STATE = ("mutates_global", "mutates_class", "removes_handlers")
@@ -139,6 +154,12 @@ def snapshot():
         "stdout_closed": bool(getattr(sys.__stdout__, "closed", False)),
         "fd0": fd(0), "fd1": fd(1), "fd2": fd(2),
         "logging_disable": root.manager.disable,
+        # behavioural view of the logging state: what loggers answer, not only the stored level
+        # (Logger.isEnabledFor caches its answers; logging.disable() clears those caches)
+        "logging_enabled_for": tuple(
+            logging.getLogger(n).isEnabledFor(lv)
+            for n in ("", "c30_sut", "pynguin", "pynguin.c30probe")
+            for lv in (logging.DEBUG, logging.INFO, logging.WARNING, logging.ERROR, logging.CRITICAL)),
         "root_handlers": tuple(id(h) for h in root.handlers),
         "pynguin_rng": hash(randomness.RNG.getstate()),
     }
@@ -286,7 +307,7 @@ def run(ctx):
     ctx.exhaustive = ctx.col.counters.get("capped_sequences", 0) == 0
     ctx.note("leg1_depth", depth)
     ctx.note("leg1_alphabet", CALLS)
-    ctx.rule = (f"leg 1: all sequences of <= {depth} calls from the 15-call alphabet through one executor, "
+    ctx.rule = (f"leg 1: all sequences of <= {depth} calls from the 17-call alphabet through one executor, "
                 "process snapshot compared after every execution, result projection compared with the "
                 f"call's first-position result; leg 2: all schedules with <= {bound} deviations of the "
                 "timeout/abandon protocol (see C32) judged for lost later results and leaked redirection")
